@@ -27,12 +27,12 @@ ACTIONS = ("VerifyPrev", "GetUdTyped", "NodeCall1", "NodeCall2", "Onboard", "Han
 MODEL_BUGS = (("notweak", "AlteredFails"), ("dropfirst", "GenuineVerifies"), ("maxpages", "GenuineGathers"),
               ("swapmsg", "GenuineVerifies"), ("wrongtweak", "GenuineVerifies"), ("nobind", "AlteredFails"),
               ("nohealth", "AlteredFails"), ("udslice", "GenuineGathers"), ("noidcheck", "NodeBad"),
-              ("nostatus", "NodeBad"), ("derpad", "GenuineVerifies"), ("setdefault", "GenuineVerifies"), ("rstrip", "GenuineVerifies"), ("sigcheck", "GenuineGathers"))
+              ("nostatus", "NodeBad"), ("derpad", "GenuineVerifies"), ("setdefault", "GenuineVerifies"), ("rstrip", "GenuineVerifies"), ("sigcheck", "GenuineGathers"), ("localtime", "GenuineVerifies"))
 NEGATIVES = ("NeverVerifies", "NeverGatherFails", "NeverVerifyFails", "NeverLegacy", "NeverFourPages",
              "NeverNodeOk", "NeverReorgOk", "NeverNodeFails", "NeverRootByUrl", "NeverRootUrlBad", "NeverShapedOk", "NeverSecondRunOk", "NeverInplaceOk",
-             "NeverSecondRunAlteredFails", "NeverDigestOk")
+             "NeverSecondRunAlteredFails", "NeverDigestOk", "NeverZonedOk", "NeverZonedRefused")
 TRACE_KEYS = ("id", "udsrc", "node", "node_at", "node_n", "node_url", "rootvia", "root_url", "http", "ud_sent",
-              "att_file", "contacted", "g_err", "v_err", "sigsite", "sigclass", "digsite", "digclass", "hist", "prev_ok", "dev_prev", "earlier_before",
+              "att_file", "contacted", "g_err", "v_err", "tz", "when_who", "when_kind", "sigsite", "sigclass", "digsite", "digclass", "hist", "prev_ok", "dev_prev", "earlier_before",
               "earlier_after", "verify_prev", "printed_prev", "plat", "alt", "dev", "g_onboard", "g_attest", "gather", "file0", "reload0", "file",
               "reload", "reload_ok", "verify", "printed", "verify2", "printed2")
 
@@ -178,6 +178,9 @@ def random_case(rng):
         b["shape"] = {"site": rng.choice(attflow.SIG_SITES[plat]), "cls": rng.choice(shapes)}
         if plat == "sgx" and rng.random() < 0.5:
             b["shape"] = {"site": "q_sig", "cls": rng.choice(attflow.SHAPES_QUOTE)}
+    if plat == "sgx" and site == "none" and rng.random() < 0.4:      # ... any zone, any edge of a period
+        b["clock"] = {"tz": rng.choice(attflow.TZS), "who": rng.choice(("pck", "pca", "root")),
+                      "kind": rng.choice(("far",) + attflow.WHEN_KINDS)}
     if site == "none" and rng.random() < 0.3:          # ... any digest shape
         dsite = rng.choice(attflow.DIGEST_SITES[plat])
         if not (dsite == "ak" and cfg["qeauth"] < 4):
@@ -456,7 +459,7 @@ def run(ctx):
     judge(res, everything, allres, "model behaviours + random shapes + byte sweeps", stats_acc)
     outcomes = {}
     for (o, d), c in zip(allres, everything):
-        kind = "altered" if c["alt"]["site"] != "none" else (
+        kind = "altered" if c["alt"]["site"] != "none" else "out-of-period" if o["alt"] == "period" else (
             "node-misbehaves" if c.get("udsrc") == "node" and c["node"] not in ("ok", "grew", "reorg") else "genuine")
         key = "%s/%s/%s" % (c["plat"], kind, outcome_class(o))
         outcomes[key] = outcomes.get(key, 0) + 1
@@ -483,6 +486,12 @@ def run(ctx):
             dseen[k] = dseen.get(k, 0) + 1
     res.coverage["digest_shapes_ground"] = dict(sorted(dground.items()))
     res.coverage["digest_classes_seen"] = dict(sorted(dseen.items()))
+    clocks = {}
+    for (o, d), c in zip(allres, everything):
+        if c.get("tz") or c.get("when"):
+            k = "%s %s:%s -> %s" % (o["tz"], o["when_who"], o["when_kind"], o["verify"])
+            clocks[k] = clocks.get(k, 0) + 1
+    res.coverage["zones_and_validity_edges"] = dict(sorted(clocks.items()))
     res.coverage["signature_shapes_ground"] = dict(sorted(ground.items()))
     res.coverage["signature_component_classes_seen"] = dict(sorted(seen.items()))
     hists = {}
